@@ -11,7 +11,7 @@
    Anchors (HEAD of /repo):
      scalar_real_template.in      MarshalJSON / UnmarshalJSON, Alloc, GetDerivative, GetHessian
      scalar_template.in           MarshalJSON / UnmarshalJSON (plain scalars)
-     scalar_const_template.in     MarshalJSON (calls json.Marshal on itself)
+     scalar_const_template.in     MarshalJSON (json.Marshal of the underlying number, since da67985)
      vector_dense_*template.in    MarshalJSON / UnmarshalJSON / Table / Export / Import
      vector_sparse_*template.in   NewSparse*Vector, iterator skip(), MarshalJSON / UnmarshalJSON, Export / Import
      matrix_dense_*template.in    index, SLICE, T, MarshalJSON (repack of views), UnmarshalJSON, Table/Export/Import
@@ -139,8 +139,10 @@ Variable parseJ : T -> option F.         (* encoding/json number decoder at the 
 Definition write_plain (x : F) : res T := of_opt (fmtJ x).
 Definition read_plain (t : T) : res F := of_opt (parseJ t).
 
-(* constant scalars: MarshalJSON calls json.Marshal(obj), which calls MarshalJSON ... *)
-Definition write_const (x : F) : res T := Crash.
+(* constant scalars: MarshalJSON is json.Marshal(SCALAR_TYPE(obj)) (da67985; before: json.Marshal(obj),
+   an infinite recursion); there is no UnmarshalJSON: the number is read back by encoding/json into the
+   underlying number type, i.e. by read_plain *)
+Definition write_const (x : F) : res T := of_opt (fmtJ x).
 
 (* GetDerivative / GetHessian *)
 Definition getD (r : real F) (i : Z) : res F :=
@@ -194,8 +196,11 @@ Definition write_real (r : real F) : res (sdoc T) :=
   | false, false => Ok (SNum v)
   end.
 
-(* UnmarshalJSON into NewReal64(0) / new(Real64).  The only comparison the Go
-   code makes in the first branch is len(r.Derivative) != len(r.Derivative). *)
+(* UnmarshalJSON into NewReal64(0) / new(Real64) (b9c30c8, 500dcc2):
+     Derivative and Hessian present: the Hessian must be N x N with N = len(Derivative);
+     Hessian only: the Hessian must be N x N with N = len(Hessian), the gradient is N zeros
+     (make([]float, N)). *)
+Definition rows_len (n : Z) (H : list (list F)) : bool := forallb (fun row => zlen row =? n) H.
 Definition read_real (d : sdoc T) : res (real F) :=
   match d with
   | SNum t => x <- of_opt (parseJ t) ;; Ok (mkReal x 0 0 [] [])
@@ -205,9 +210,13 @@ Definition read_real (d : sdoc T) : res (real F) :=
       H <- parse_rows (match th with Some l => l | None => [] end) ;;
       match D, H with
       | _ :: _, _ :: _ =>
-          if negb (zlen D =? zlen D) then Err else Ok (mkReal x 2 (zlen D) D H)
+          if negb (zlen H =? zlen D) then Err
+          else if negb (rows_len (zlen D) H) then Err
+          else Ok (mkReal x 2 (zlen D) D H)
       | _ :: _, [] => Ok (mkReal x 1 (zlen D) D [])
-      | [], _ :: _ => Ok (mkReal x 2 (zlen D) [] H)      (* Alloc(len(r.Derivative), 2) with len = 0 *)
+      | [], _ :: _ =>
+          if negb (rows_len (zlen H) H) then Err
+          else Ok (mkReal x 2 (zlen H) (repeat zero (length H)) H)
       | [], [] => Ok (mkReal x 0 0 [] [])
       end
   end.
@@ -259,9 +268,27 @@ Definition new_sparse (idx : list Z) (vals : list F) (n : Z) : res (svec F) :=
   if negb (zlen idx =? zlen vals) then Panic
   else ents <- new_sparse_go [] idx vals n ;; Ok (mkSv ents n).
 
+(* what a reader does once it holds indices, values and the dimension: no validation but the
+   constructor's panics.  This is still the whole of the TABLE readers (Import calls NewSparse* directly). *)
+Definition read_sv_core (d : svdoc T) : res (svec F) :=
+  vals <- parse_list (svd_value d) ;;
+  if negb (zlen (svd_index d) =? zlen vals) then Err
+  else new_sparse (svd_index d) vals (svd_length d).
+
+(* indices := make(map[int]bool); for _, k := range r.Index { if k < 0 || k >= n || indices[k] { return error } ... } *)
+Fixpoint idx_ok (n : Z) (seen idx : list Z) : bool :=
+  match idx with
+  | [] => true
+  | k :: rest => if (k <? 0) || (k >=? n) || existsb (Z.eqb k) seen then false else idx_ok n (k :: seen) rest
+  end.
+
+(* UnmarshalJSON (a328708): length check, Length >= 0, every index in [0, Length) and not repeated — all
+   answered with an error — and only then the constructor *)
 Definition read_sv (d : svdoc T) : res (svec F) :=
   vals <- parse_list (svd_value d) ;;
   if negb (zlen (svd_index d) =? zlen vals) then Err
+  else if svd_length d <? 0 then Err
+  else if negb (idx_ok (svd_length d) [] (svd_index d)) then Err
   else new_sparse (svd_index d) vals (svd_length d).
 
 (* ------------------------------------------------------ dense matrices *)
@@ -298,11 +325,14 @@ Definition write_dm (m : dmat E) : res (dmdoc D) :=
   docs <- mapR wr vals ;;
   Ok (mkDmDoc docs (dm_rows m) (dm_cols m)).
 
-(* no validation at all; the Real matrices additionally crop their two scratch vectors
-   (initTmp: tmp[0:rows], tmp[0:cols] on empty scratch vectors), which panics on a negative bound *)
+(* UnmarshalJSON (d37b260): after the decoder, Rows < 0 || Cols < 0 || len(Values) != Rows*Cols is an error.
+   Rows*Cols is a Go int product: it wraps, so a document whose dimensions overflow to len(Values) is still
+   accepted (e.g. Values = [], Rows = Cols = 2^32).  The Real matrices crop / allocate their two scratch
+   vectors afterwards (initTmp); with non-negative dimensions that cannot panic any more (memory is not
+   modelled), so [has_tmp] no longer changes the outcome. *)
 Definition read_dm (has_tmp : bool) (d : dmdoc D) : res (dmat E) :=
   vals <- mapR rd (dmd_values d) ;;
-  if has_tmp && ((dmd_rows d <? 0) || (dmd_cols d <? 0)) then Panic else
+  if (dmd_rows d <? 0) || (dmd_cols d <? 0) || negb (zlen (dmd_values d) =? wrap64 (dmd_rows d * dmd_cols d)) then Err else
   Ok (mkDm vals (dmd_rows d) (dmd_cols d) 0 (dmd_rows d) 0 (dmd_cols d) false).
 
 (* ----------------------------------------------------- sparse matrices *)
@@ -348,9 +378,22 @@ Definition write_sm (m : smat E) : res (smdoc T) :=
   ts <- fmt_list (map (fun kv => eval (snd kv)) live) ;;
   Ok (mkSmDoc (map fst live) ts (sm_rows m) (sm_cols m)).
 
+(* the unvalidated core (before a328708) *)
+Definition read_sm_core (d : smdoc T) : res (smat F) :=
+  vals <- parse_list (smd_value d) ;;
+  if negb (zlen (smd_index d) =? zlen vals) then Err
+  else st <- new_sparse (smd_index d) vals (wrap64 (smd_rows d * smd_cols d)) ;;
+       Ok (mkSm st (smd_rows d) (smd_cols d) 0 (smd_rows d) 0 (smd_cols d)).
+
+(* UnmarshalJSON (a328708): Rows < 0 || Cols < 0 || (Cols != 0 && Rows*Cols/Cols != Rows) is an error
+   (Go's * wraps, / truncates), then every index must lie in [0, Rows*Cols) and not be repeated *)
+Definition sm_dims_bad (rows cols : Z) : bool :=
+  (rows <? 0) || (cols <? 0) || (negb (cols =? 0) && negb (Z.quot (wrap64 (rows * cols)) cols =? rows)).
 Definition read_sm (d : smdoc T) : res (smat F) :=
   vals <- parse_list (smd_value d) ;;
   if negb (zlen (smd_index d) =? zlen vals) then Err
+  else if sm_dims_bad (smd_rows d) (smd_cols d) then Err
+  else if negb (idx_ok (wrap64 (smd_rows d * smd_cols d)) [] (smd_index d)) then Err
   else st <- new_sparse (smd_index d) vals (wrap64 (smd_rows d * smd_cols d)) ;;
        Ok (mkSm st (smd_rows d) (smd_cols d) 0 (smd_rows d) 0 (smd_cols d)).
 
